@@ -101,4 +101,25 @@ def fill (g : Gen) (lo hi : α) (n : Nat) : Except Err (List α) :=
   | .ok (_, vs) => .ok vs
   | .error e => .error e
 
+
+/-- `Tensor::random(shape, min, max)` from a given generator state (the Rust code seeds it from the
+    clock): the values are drawn in row-major order and nested as the shape says -/
+def randomTensor (g : Gen) (shape : Shape) (lo hi : α) : Except Err (Tensor α) :=
+  match shape with
+  | .single n => match fill g lo hi n with
+    | .ok vs => .ok ⟨shape, .single vs⟩ | .error e => .error e
+  | .double r c => match fill g lo hi (r * c) with
+    | .ok vs => match L.takeRows c r vs with
+      | .ok (rows, _) => .ok ⟨shape, .double rows⟩ | .error e => .error e
+    | .error e => .error e
+  | .triple ch r c => match fill g lo hi (ch * r * c) with
+    | .ok vs => match L.takeMats r c ch vs with
+      | .ok (ms, _) => .ok ⟨shape, .triple ms⟩ | .error e => .error e
+    | .error e => .error e
+  | .quadruple a b r c => match fill g lo hi (a * b * r * c) with
+    | .ok vs => match L.takeMats r c (a * b) vs with
+      | .ok (ms, _) => .ok ⟨shape, .quadruple (L.chunksExact b ms)⟩ | .error e => .error e
+    | .error e => .error e
+  | .nested _ => .error .reject
+
 end Rng
